@@ -514,17 +514,18 @@ Print Assumptions C12_help_flag_gen_satisfiable.
 
 (** ---- fourth pass: the help flag behind a chain of subcommands WITH arguments between the names ---- *)
 
-(** Class [hsplit c toks ns lv pos] (Help/HelpChainWide.v): [toks] = `pre_0 t_1 pre_1 .. t_k pre_k`; every [pre_i] is a
+(** Class [hsplit c toks ns lv pst pos] (Help/HelpChainWide.v): [toks] = `pre_0 t_1 pre_1 .. t_k pre_k`; every [pre_i] is a
     [wprefix] of the level reached (C09's wide class: options in the six spellings of [prefix_ok], values of
     single-valued positionals, the values of a multi-valued positional) that this level ACCEPTS (its token loop on
     [pre_i] alone, from a fresh matcher, ends without an error; at the last level also the occurrence still pending);
     every [t_i] is a [psel] selection (name / alias, inferred prefix, long flag-subcommand, a name behind multi-values
-    with precedence); levels have [ignore_errors] and [args_conflicts_with_subcommands] off; the line ends between two
-    arguments of [lv] with the positional counter at [pos].  `prog -v sub --opt x subsub --help anything..` yields the
+    with precedence); levels have [ignore_errors] and [args_conflicts_with_subcommands] off; the line ends in loop state [pst] of
+    [lv] -- between two arguments, or while a multi-valued positional that does not take hyphen values collects values
+    ([pst_ok]) -- with the positional counter at [pos].  `prog -v sub --opt x subsub --help anything..` yields the
     help of [subsub]: the DisplayHelp error of [lv], which is the level [p_level_walk] reaches by [ns]. *)
-Theorem C12_help_flag_long_wide : forall c0 bin toks ns lv pos rest ul,
+Theorem C12_help_flag_long_wide : forall c0 bin toks ns lv pst pos rest ul,
   is_set s_no_binary_name c0 = false -> c_bin_name c0 <> None ->
-  valid c0 = true -> hsplit (build_self c0) toks ns lv pos -> long_help_at lv ul = true ->
+  valid c0 = true -> hsplit (build_self c0) toks ns lv pst pos -> pst_ok lv pst /\ long_help_at lv ul = true ->
   parse_top c0 (bin :: toks ++ tok_help_long :: rest) = OErr (help_err lv ul)
   /\ p_level_walk (build_self c0) ns = Some lv
   /\ e_kind (help_err lv ul) = EDisplayHelp /\ e_cmd (help_err lv ul) = opt_default [] (c_about lv)
@@ -533,10 +534,10 @@ Proof. exact help_flag_long_wide. Qed.
 Print Assumptions C12_help_flag_long_wide.
 
 (** [-h]: the positional the counter points at does not take hyphen values / negative numbers ([no_hyphen_pos]) *)
-Theorem C12_help_flag_short_wide : forall c0 bin toks ns lv pos rest ul,
+Theorem C12_help_flag_short_wide : forall c0 bin toks ns lv pst pos rest ul,
   is_set s_no_binary_name c0 = false -> c_bin_name c0 <> None ->
-  valid c0 = true -> hsplit (build_self c0) toks ns lv pos ->
-  short_help_flag lv ul = true /\ Dispatch.no_hyphen_pos lv pos ->
+  valid c0 = true -> hsplit (build_self c0) toks ns lv pst pos ->
+  pst_ok lv pst /\ short_help_flag lv ul = true /\ Dispatch.no_hyphen_pos lv pos ->
   parse_top c0 (bin :: toks ++ tok_help_short :: rest) = OErr (help_err lv ul)
   /\ p_level_walk (build_self c0) ns = Some lv
   /\ e_kind (help_err lv ul) = EDisplayHelp /\ e_cmd (help_err lv ul) = opt_default [] (c_about lv)
@@ -545,7 +546,7 @@ Proof. exact help_flag_short_wide. Qed.
 Print Assumptions C12_help_flag_short_wide.
 
 (** the class lies inside C09's [wsplit] (hence [wline]: [C09_chain_wide] speaks about the same lines) *)
-Theorem C12_hsplit_in_wsplit : forall c toks ns lv pos, hsplit c toks ns lv pos ->
+Theorem C12_hsplit_in_wsplit : forall c toks ns lv pst pos, hsplit c toks ns lv pst pos ->
   exists names lvl, ChainWide.wsplit c toks names lvl.
 Proof. exact hsplit_wsplit. Qed.
 Print Assumptions C12_hsplit_in_wsplit.
@@ -564,9 +565,9 @@ Proof. exact level_has_help. Qed.
 Print Assumptions C12_level_has_help.
 
 (** nothing assumed about the help flag but "not disabled at [lv]" and "no subcommand of [lv] is NAMED like the token" *)
-Theorem C12_help_flag_long_wide_gen : forall c0 bin toks ns lv pos rest,
+Theorem C12_help_flag_long_wide_gen : forall c0 bin toks ns lv pst pos rest,
   is_set s_no_binary_name c0 = false -> c_bin_name c0 <> None ->
-  valid c0 = true -> EngineProofs.tree_all EngineLevel.unb c0 -> hsplit (build_self c0) toks ns lv pos ->
+  valid c0 = true -> EngineProofs.tree_all EngineLevel.unb c0 -> hsplit (build_self c0) toks ns lv pst pos -> pst_ok lv pst ->
   is_set s_disable_help_flag lv = false -> possible_subcommand lv tok_help_long false = None ->
   parse_top c0 (bin :: toks ++ tok_help_long :: rest) = OErr (help_err lv true)
   /\ p_level_walk (build_self c0) ns = Some lv
@@ -575,9 +576,9 @@ Theorem C12_help_flag_long_wide_gen : forall c0 bin toks ns lv pos rest,
 Proof. exact help_flag_long_wide_gen. Qed.
 Print Assumptions C12_help_flag_long_wide_gen.
 
-Theorem C12_help_flag_short_wide_gen : forall c0 bin toks ns lv pos rest,
+Theorem C12_help_flag_short_wide_gen : forall c0 bin toks ns lv pst pos rest,
   is_set s_no_binary_name c0 = false -> c_bin_name c0 <> None ->
-  valid c0 = true -> EngineProofs.tree_all EngineLevel.unb c0 -> hsplit (build_self c0) toks ns lv pos ->
+  valid c0 = true -> EngineProofs.tree_all EngineLevel.unb c0 -> hsplit (build_self c0) toks ns lv pst pos -> pst_ok lv pst ->
   is_set s_disable_help_flag lv = false -> possible_subcommand lv tok_help_short false = None ->
   Dispatch.no_hyphen_pos lv pos ->
   parse_top c0 (bin :: toks ++ tok_help_short :: rest) = OErr (help_err lv false)
@@ -617,7 +618,7 @@ Print Assumptions C12_help_flag_short_level_unb.
 Theorem C12_help_wide_satisfiable :
   is_set s_no_binary_name hw_root = false /\ c_bin_name hw_root <> None /\ valid hw_root = true
   /\ EngineProofs.tree_all EngineLevel.unb hw_root
-  /\ exists lv, hsplit (build_self hw_root) hw_toks [Chain.w_sync; Dispatch.b1 113] lv 1 /\ c_name lv = Dispatch.b1 113
+  /\ exists lv, hsplit (build_self hw_root) hw_toks [Chain.w_sync; Dispatch.b1 113] lv PSValuesDone 1 /\ c_name lv = Dispatch.b1 113
        /\ is_set s_disable_help_flag lv = false
        /\ possible_subcommand lv tok_help_long false = None /\ possible_subcommand lv tok_help_short false = None
        /\ Dispatch.no_hyphen_pos lv 1
@@ -627,6 +628,24 @@ Theorem C12_help_wide_satisfiable :
        /\ parse_top hw_root (Dispatch.b1 112 :: hw_toks ++ tok_help_short :: [hw_bogus]) = OErr (help_err lv false).
 Proof. exact hw_hyps. Qed.
 Print Assumptions C12_help_wide_satisfiable.
+
+(** non-vacuity for the state "a multi-valued positional collects values": `p a b sync --help` / `-h` on C09's [ex_wide]
+    (`sync` is swallowed by <files>...: no [subcommand_precedence_over_arg]) -- the help of the ROOT, not of [sync] *)
+Theorem C12_help_wide_multi_satisfiable :
+  is_set s_no_binary_name hs_wide = false /\ c_bin_name hs_wide <> None /\ valid hs_wide = true
+  /\ EngineProofs.tree_all EngineLevel.unb hs_wide
+  /\ hsplit (build_self hs_wide) [Dispatch.b1 97; Dispatch.b1 98; Chain.w_sync] [] (build_self hs_wide) (PSPos ChainWide.w_files) 2
+  /\ pst_ok (build_self hs_wide) (PSPos ChainWide.w_files)
+  /\ is_set s_disable_help_flag (build_self hs_wide) = false
+  /\ possible_subcommand (build_self hs_wide) tok_help_long false = None
+  /\ possible_subcommand (build_self hs_wide) tok_help_short false = None
+  /\ Dispatch.no_hyphen_pos (build_self hs_wide) 2
+  /\ parse_top hs_wide (Dispatch.b1 112 :: [Dispatch.b1 97; Dispatch.b1 98; Chain.w_sync] ++ tok_help_long :: [])
+     = OErr (help_err (build_self hs_wide) true)
+  /\ parse_top hs_wide (Dispatch.b1 112 :: [Dispatch.b1 97; Dispatch.b1 98; Chain.w_sync] ++ tok_help_short :: [])
+     = OErr (help_err (build_self hs_wide) false).
+Proof. exact hs_hyps_multi. Qed.
+Print Assumptions C12_help_wide_multi_satisfiable.
 
 (** ---- fourth pass: `help <path>`, the help SUBCOMMAND ---- *)
 
@@ -663,11 +682,12 @@ Print Assumptions C12_help_walk_infer_panics.
 
 (** the whole line: behind a chain with arguments ([hsplit]) a token that selects the generated [help] subcommand
     ([help_sel]: [possible_subcommand] answers `help` -- the word itself or, with [infer_subcommands], a prefix of it --
-    and the help subcommand is not disabled) and a path of names / ALIASES: the DisplayHelp error (long form) of the
+    and the help subcommand is not disabled; [sub_tried]: the loop looks for subcommands in that state -- between two
+    arguments, or anywhere under [subcommand_precedence_over_arg]) and a path of names / ALIASES: the DisplayHelp error (long form) of the
     level the path leads to, which is the level [p_level_walk] reaches from the root by [ns ++ path] *)
-Theorem C12_help_subcommand_level : forall c0 bin toks ns lv pos tok path lv',
+Theorem C12_help_subcommand_level : forall c0 bin toks ns lv pst pos tok path lv',
   is_set s_no_binary_name c0 = false -> c_bin_name c0 <> None ->
-  valid c0 = true -> hsplit (build_self c0) toks ns lv pos -> help_sel lv tok ->
+  valid c0 = true -> hsplit (build_self c0) toks ns lv pst pos -> help_sel lv tok /\ sub_tried lv pst ->
   p_level_walk lv path = Some lv' ->
   parse_top c0 (bin :: toks ++ tok :: path) = OErr (help_err lv' true)
   /\ p_level_walk (build_self c0) (ns ++ path) = Some lv'
@@ -678,9 +698,9 @@ Print Assumptions C12_help_subcommand_level.
 
 (** a word of the path that is no name or alias of the level reached -- a proper prefix included, with or without
     [infer_subcommands] -- is reported: InvalidSubcommand naming that word, for the level reached so far; never a panic *)
-Theorem C12_help_subcommand_unknown : forall c0 bin toks ns lv pos tok known w more lvk,
+Theorem C12_help_subcommand_unknown : forall c0 bin toks ns lv pst pos tok known w more lvk,
   is_set s_no_binary_name c0 = false -> c_bin_name c0 <> None ->
-  valid c0 = true -> hsplit (build_self c0) toks ns lv pos -> help_sel lv tok ->
+  valid c0 = true -> hsplit (build_self c0) toks ns lv pst pos -> help_sel lv tok /\ sub_tried lv pst ->
   p_level_walk lv known = Some lvk -> find_subcommand lvk w = None ->
   parse_top c0 (bin :: toks ++ tok :: known ++ w :: more) = OErr (unknown_sub_err lvk w).
 Proof. exact help_sub_unknown. Qed.
@@ -691,8 +711,8 @@ Print Assumptions C12_help_subcommand_unknown.
     [del] is a unique prefix of the alias and [infer_subcommands] is on) *)
 Theorem C12_help_subcommand_satisfiable :
   is_set s_no_binary_name hw_root = false /\ c_bin_name hw_root <> None /\ valid hw_root = true
-  /\ hsplit (build_self hw_root) [Chain.dd Chain.w_verbose] [] (build_self hw_root) 1
-  /\ help_sel (build_self hw_root) s_help
+  /\ hsplit (build_self hw_root) [Chain.dd Chain.w_verbose] [] (build_self hw_root) PSValuesDone 1
+  /\ (help_sel (build_self hw_root) s_help /\ sub_tried (build_self hw_root) PSValuesDone)
   /\ exists lv', p_level_walk (build_self hw_root) [[115; 121]; Dispatch.b1 113] = Some lv' /\ c_name lv' = Dispatch.b1 113
        /\ parse_top hw_root (Dispatch.b1 112 :: [Chain.dd Chain.w_verbose] ++ s_help :: [[115; 121]; Dispatch.b1 113])
           = OErr (help_err lv' true).
@@ -701,8 +721,8 @@ Print Assumptions C12_help_subcommand_satisfiable.
 
 Theorem C12_help_subcommand_infer_example :
   is_set s_no_binary_name hs_wide = false /\ c_bin_name hs_wide <> None /\ valid hs_wide = true
-  /\ hsplit (build_self hs_wide) [[45; 103]; Dispatch.b1 120; Dispatch.b1 97] [] (build_self hs_wide) 2
-  /\ help_sel (build_self hs_wide) [104; 101]
+  /\ hsplit (build_self hs_wide) [[45; 103]; Dispatch.b1 120; Dispatch.b1 97] [] (build_self hs_wide) PSValuesDone 2
+  /\ (help_sel (build_self hs_wide) [104; 101] /\ sub_tried (build_self hs_wide) PSValuesDone)
   /\ (exists lv', p_level_walk (build_self hs_wide) [ChainWide.w_delete] = Some lv' /\ c_name lv' = ChainWide.w_remove
        /\ parse_top hs_wide (Dispatch.b1 112 :: [[45; 103]; Dispatch.b1 120; Dispatch.b1 97] ++ [104; 101] :: [ChainWide.w_delete])
           = OErr (help_err lv' true))
